@@ -13,7 +13,7 @@ CFG = dict(
         "translator tr-capture (syntactic: writes to variables captured by run-time closures of interp/*.go; indirect writes through called functions are seen only by the race detector)",
         "hand-written machine model Conc/Machine.v (frames, goroutine start, select micro-steps), tied by the regenerated table of captured writes and by behavioural correspondence on generated programs",
     ],
-    level_text="Coq theorems over ALL schedules (induction over the schedule) about a machine model of the interpreter's concurrency bookkeeping: frame accesses stay on the own ancestor chain, an activation's frame is touched by no other thread, generated (per-statement) state is read-only and receives happen on the designated channels when the select vector is per execution or there is no select, isolation by replay of own communications; refutation witness for the shared select vector of the code today. The model is tied to the source on every run by the regenerated table of writes to captured state (tr-capture) and by running template programs under the race detector and against compiled Go.",
+    level_text="Coq theorems over ALL schedules (induction over the schedule) about a machine model of the interpreter's concurrency bookkeeping: frame accesses stay on the own ancestor chain, an activation's frame is touched by no other thread, generated (per-statement) state is read-only and receives happen on the designated channels when the select vector is per execution or there is no select, isolation by replay of own communications; refutation witness for the shared select vector of the code today. The model is tied to the source on every run by the regenerated table of writes to captured state (tr-capture) and by running template programs under the race detector and against compiled Go: pipelines, pools, select, mutex, closures, host-concurrent calls, parallel interpreters, and an operand family (harness/c08_ops.go: every statement form executed by N goroutines at the SAME call site with DISTINCT operands - interface method calls with blocking and non-blocking arguments, method values, closure variables, struct/array/slice/map/string operands, type assertions and switches, composite literals, defer/recover, range, go statements on methods and closure variables) whose per-worker result identifies whose operand was used.",
     level_note="Partial: that the Go implementation has no data race is a run-time fact observed with the race detector on generated runs (goroutines 2..32, GOMAXPROCS 1/2/16, seeded yield injection), not proved. Channels are modelled as unbounded queues; sync.Mutex/WaitGroup are the host's. Open finding: _select shares its cases vector between goroutines (race + cross-talk).",
     technique="Coq proof by induction over schedules on an executable machine model + source-regenerated table + race-detector runs of generated concurrent programs compared with compiled Go",
     assumptions=["channel blocking/rendez-vous, sync.Mutex and sync.WaitGroup are the host run-time's and are not modelled",
